@@ -26,6 +26,10 @@ impl AggregateFunction for Average {
     }
 
     fn emit(&self) -> data::Value {
+        if self.count == 0 {
+            // no numeric value in the group: no average (like min and max), not 0/0
+            return data::Value::None;
+        }
         data::Value::from_float(self.total / self.count as f64)
     }
 
